@@ -1,4 +1,5 @@
 import GeoVerif.Model.Geoid
+import GeoVerif.Proofs.GeoidLoc
 /-!
 # C20 — Geoid heights depend only on the data and the position (core Lean only)
 
@@ -249,5 +250,29 @@ theorem polar_tables :
     ((List.range 12).map fun j => tcoef Gen.GeoidC.c3s j 0).sum = Gen.GeoidC.c0s ∧
     ((List.range 12).all fun j => tcoef Gen.GeoidC.c3n j 1 == 0 && tcoef Gen.GeoidC.c3n j 3 == 0 && tcoef Gen.GeoidC.c3n j 6 == 0) = true := by
   decide +kernel
+
+
+/-- **the floating-point cell location stays inside the raster** (was a per-query checked hypothesis):
+for every raster of width `2 ≤ w ≤ 2^31` — `w` is a C++ `int` — the binary64 instance of the environment
+satisfies `EnvOK`; the column index `⌊lon·rnd(w/360)⌋` (two roundings) wrapped by `±w` is in `[0, w)` for every
+position.  Proof: monotonicity of correct rounding (`Proofs/RoundQ.lean`, `Proofs/DivTo.lean`, `Proofs/GeoidLoc.lean`). -/
+theorem concrete_envOK (f : File) (cubic : Bool) (h2 : 2 ≤ f.w) (hmax : f.w ≤ 2 ^ 31) :
+    EnvOK (concrete f cubic) where
+  wpos := h2
+  stencil := by
+    intro d hd
+    cases cubic
+    · exact stencils_ok.1 d hd
+    · exact stencils_ok.2 d hd
+  locRange := fun lat lon ix iy fx fy h => locF_ix_range f h2 hmax lat lon ix iy fx fy h
+
+/-- hence history- and cache-mode-independence of the binary64 model needs no location hypothesis -/
+theorem concrete_run_eq_spec (f : File) (cubic : Bool) (h2 : 2 ≤ f.w) (hmax : f.w ≤ 2 ^ 31)
+    (ops : List (Op F64)) (hw : ∀ op ∈ ops, WindowOK (concrete f cubic) op)
+    (s : St (List F64)) (hI : GInv (concrete f cubic) s) :
+    run (concrete f cubic) s ops = specRun (concrete f cubic) ops :=
+  run_eq_spec (concrete f cubic) (concrete_envOK f cubic h2 hmax) ops hw s hI
+
+example : (2:ℤ) ≤ (⟨8, 5, .fin false 0 0, .fin false 1 0, #[]⟩ : File).w ∧ (⟨8, 5, .fin false 0 0, .fin false 1 0, #[]⟩ : File).w ≤ 2 ^ 31 := by decide
 
 end GeoVerif.Props.C20
